@@ -334,9 +334,13 @@ def execute_model(plan, stats, keys, viol):
             sk = np.atleast_2d(np.diff(np.array(X), axis=0))
             yk = np.atleast_2d(np.diff(np.array(G), axis=0))
             ck = OptimizeResult(x=X[-1].copy(), jac=G[-1].copy(), hess_inv=LbfgsInvHessProduct(sk, yk))
-            Xr, Gr = _main.initialize_X_and_G(X[-1].copy(), ck, m2)
-            matsr = LBFGSB_MATRICES(n)
-            matsr = _main.update_lbfgs_matrices(X[-1].copy(), G[-1].copy(), Xr, Gr, m2, matsr, False, eps)
+            try:
+                Xr, Gr = _main.initialize_X_and_G(X[-1].copy(), ck, m2)
+                matsr = LBFGSB_MATRICES(n)
+                matsr = _main.update_lbfgs_matrices(X[-1].copy(), G[-1].copy(), Xr, Gr, m2, matsr, False, eps)
+            except Exception as e:  # noqa: BLE001 - restoring a valid history must not fail
+                add("restore_raised", {"exception": repr(e)[:200], "maxcor": m2}, i)
+                return
             stats["fault.restore"] += 1
             stats["probe.restore_with_reduced_maxcor"] += 1 if m2 < len(X) - 1 else 0
             keep = min(m2, len(mX) - 1)
